@@ -332,6 +332,110 @@ fn c11_list(n: usize, l: &[(usize, usize)]) -> Option<String> {
     }
 }
 
+/// long partitions: `len` intervals; bit i of `pat` (cyclically, period 5) decides whether interval i+1 is adjacent to
+/// interval i or separated by a gap; widths alternate between 1 and 3 characters; the first interval starts at 0 or 7
+fn long_layout(len: usize, pat: u32) -> Vec<(u32, u32)> {
+    let mut v = vec![];
+    let mut pos: u32 = if pat & 1 == 1 { 0 } else { 7 };
+    for i in 0..len {
+        let w = if (i + (pat as usize >> 1)) % 2 == 0 { 0 } else { 2 };
+        v.push((pos, pos + w));
+        let adjacent = (pat >> (1 + i % 5)) & 1 == 1;
+        pos = pos + w + if adjacent { 1 } else { 4 };
+    }
+    v
+}
+fn long_partitions(tier: Tier) -> Vec<(usize, u32)> {
+    let lens: Vec<usize> = if tier == Tier::Thorough { (10..=70).chain([100, 127, 128, 129, 255, 256, 257, 1000]).collect() } else { vec![10, 15, 16, 17, 18, 24, 31, 32, 33, 40, 63, 64, 65, 100] };
+    let mut v = vec![];
+    for l in lens {
+        for pat in 0..64u32 {
+            if tier == Tier::Thorough || pat % 3 == 0 {
+                v.push((l, pat));
+            }
+        }
+    }
+    v
+}
+
+fn c11_long(len: usize, pat: u32, rep: &mut Report) -> Option<String> {
+    let ivs = long_layout(len, pat);
+    let r = guarded(|| {
+        let mut cp = CharPartition::new();
+        for &(l, h) in &ivs {
+            cp.push(l, h);
+        }
+        let sets: Vec<CharSet> = ivs.iter().rev().map(|&(l, h)| CharSet::range(l, h)).collect();
+        let q = match CharPartition::try_from_list(&sets) {
+            Ok(q) => q,
+            Err(e) => return Some(format!("try_from_list of {} disjoint intervals (reverse order) failed with {:?}", len, e)),
+        };
+        let last = ivs[len - 1].1;
+        let class = |c: u32| match ivs.iter().position(|&(l, h)| l <= c && c <= h) {
+            Some(i) => ClassId::Interval(i),
+            None => ClassId::Complement,
+        };
+        let mut queries = 0u64;
+        for (name, p) in [("push", &cp), ("try_from_list", &q)] {
+            if intervals_of(p) != ivs {
+                return Some(format!("{}: intervals differ from the {} pushed ones", name, len));
+            }
+            if p.num_classes() != len + 1 || p.empty_complement() || class(p.pick_complement()) != ClassId::Complement {
+                return Some(format!("{}: num_classes/complement witness wrong for {} intervals (witness {})", name, len, p.pick_complement()));
+            }
+            let picks: Vec<u32> = p.picks().collect();
+            if picks.len() != len + 1 || picks.iter().enumerate().any(|(k, &c)| class(c) != if k < len { ClassId::Interval(k) } else { ClassId::Complement }) {
+                return Some(format!("{}: picks() of a {}-interval partition are not one per class in order", name, len));
+            }
+            // every character from 0 to just after the last interval, plus the alphabet border
+            for c in (0..=last + 5).chain([M - 1, M]) {
+                queries += 1;
+                if p.class_of_char(c) != class(c) {
+                    return Some(format!("{} ({} intervals {:?}...): class_of_char({}) = {}, expected {}", name, len, &ivs[..3], c, p.class_of_char(c), class(c)));
+                }
+            }
+            // query sets around every interval
+            for (k, &(l, h)) in ivs.iter().enumerate() {
+                let mut cands: Vec<(u32, u32)> = vec![(l, h), (l, l), (h, h), (l, h + 1), (h + 1, h + 1), (h, h + 2), (l, h + 4)];
+                if l > 0 {
+                    cands.push((l - 1, h));
+                    cands.push((l - 1, l - 1));
+                }
+                for (a, b) in cands {
+                    queries += 1;
+                    let cls: BTreeSet<String> = (a..=b).map(|c| format!("{}", class(c))).collect();
+                    let exp = if cls.len() == 1 {
+                        match class(a) {
+                            ClassId::Interval(i) => CoverResult::CoveredBy(i),
+                            ClassId::Complement => CoverResult::DisjointFromAll,
+                        }
+                    } else {
+                        CoverResult::Overlaps
+                    };
+                    let got = p.interval_cover(&CharSet::range(a, b));
+                    if got != exp {
+                        return Some(format!("{} ({} intervals): interval_cover([{},{}]) near interval {} = {}, expected {}", name, len, a, b, k, got, exp));
+                    }
+                    if p.class_of_set(&CharSet::range(a, b)).is_ok() != (exp != CoverResult::Overlaps) {
+                        return Some(format!("{} ({} intervals): class_of_set([{},{}]) disagrees with {}", name, len, a, b, exp));
+                    }
+                }
+            }
+        }
+        // merging a long partition with itself and with its shift
+        let m = merge_partitions(&cp, &q);
+        if intervals_of(&m) != ivs {
+            return Some(format!("merge_partitions(p, p) differs from p for a {}-interval partition", len));
+        }
+        rep.add("queries", queries);
+        None
+    });
+    match r {
+        Ok(m) => m,
+        Err(e) => Some(format!("long partition ({} intervals, pattern {}): {}", len, pat, e)),
+    }
+}
+
 fn c11_line(tier: Tier) -> usize {
     if tier == Tier::Thorough {
         11
@@ -360,6 +464,19 @@ fn c11_run(ctx: &Ctx, batch: usize, nb: usize, rep: &mut Report) {
         if rep.samples.len() < 3 && p.len() == 3 {
             let sj = json!({"partition": raw(&units(n), p), "queries": "all characters and all [a,b] over the position boundaries"});
             rep.sample(|| sj);
+        }
+    }
+    // long partitions (binary searches and any size-dependent fast path): L intervals laid out by a gap pattern
+    for (k, (len, pat)) in long_partitions(ctx.tier).into_iter().enumerate() {
+        if k % nb != batch {
+            continue;
+        }
+        beat();
+        rep.inc("evaluations");
+        rep.inc("long_partitions");
+        rep.inc("nontrivial");
+        if let Some(m) = c11_long(len, pat, rep) {
+            rep.violation("C11", "c11", json!({"kind": "long", "len": len, "pattern": pat}), m);
         }
     }
     // arbitrary lists of up to 3 intervals (the failure side of try_from_iter)
@@ -398,6 +515,11 @@ fn c11_replay(_ctx: &Ctx, c: &Value, rep: &mut Report) {
     let n = c["line"].as_u64().unwrap_or(9) as usize;
     rep.inc("evaluations");
     match c["kind"].as_str().unwrap_or("") {
+        "long" => {
+            if let Some(m) = c11_long(c["len"].as_u64().unwrap_or(10) as usize, c["pattern"].as_u64().unwrap_or(0) as u32, rep) {
+                rep.violation("C11", "c11", c.clone(), m);
+            }
+        }
         "partition" => {
             let p = parse_part(&c["part"]);
             let msgs = c11_partition(n, &p, rep);
@@ -418,7 +540,7 @@ fn c11_meta(ctx: &Ctx) -> Meta {
     let n = c11_line(ctx.tier);
     Meta {
         level: "exploration",
-        rule: format!("all {} sets of pairwise disjoint intervals over a compressed line of {} positions (0,1,..; one fat position; ..,MAX-1,MAX) are built by push (and by from_set / try_from_list / try_from_iter in every input order when they have <= 4 intervals); every query character (position end points and interior points of the fat position) and every query set [a,b] over them is compared with set arithmetic over positions; all lists of <= 3 arbitrary intervals for the failure side of try_from_iter; run in the release and in the dev profile; non-trivial = partitions with >= 2 intervals", enum_parts(n).len(), n),
+        rule: format!("all {} sets of pairwise disjoint intervals over a compressed line of {} positions (0,1,..; one fat position; ..,MAX-1,MAX) are built by push (and by from_set / try_from_list / try_from_iter in every input order when they have <= 4 intervals); every query character (position end points and interior points of the fat position) and every query set [a,b] over them is compared with set arithmetic over positions; all lists of <= 3 arbitrary intervals for the failure side of try_from_iter; long partitions (10 to 100, thorough 1000, intervals in 22-64 adjacency patterns) queried on every character up to their last interval and on sets around every interval; run in the release and in the dev profile; non-trivial = partitions with >= 2 intervals", enum_parts(n).len(), n),
         assumptions: vec!["the code compares end points with <, <=, == and +-1 only, so its behaviour depends on the order/adjacency type of the end points, all of which the compressed line realises for up to 5 non-adjacent intervals".into()],
         exhaustive: true,
         space: format!("compressed line {:?}", units(n)),
@@ -550,6 +672,18 @@ fn c12_run(ctx: &Ctx, batch: usize, nb: usize, rep: &mut Report) {
                 let m = c12_pair(n, p1, p2).unwrap_or_else(|| "merge_partitions failed on the prebuilt partitions only".into());
                 rep.violation("C12", "c12", json!({"kind": "pair", "line": n, "p1": p1, "p2": p2}), m);
             }
+            // the same pair as a two-element list
+            rep.inc("evaluations");
+            let ok2 = guarded(|| {
+                let m = merge_partition_list([&cps[i], &cps[j]].into_iter());
+                check_merged(&us, n, &[p1, p2], &m, "merge_partition_list").is_none()
+            })
+            .unwrap_or(false);
+            if !ok2 {
+                let l = vec![p1.clone(), p2.clone()];
+                let m = c12_list(n, &l).unwrap_or_else(|| "merge_partition_list([p1, p2]) is not the common refinement".into());
+                rep.violation("C12", "c12", json!({"kind": "list", "line": n, "parts": l}), m);
+            }
         }
         // neutral element
         for (a, b) in [(p1.clone(), vec![]), (vec![], p1.clone())] {
@@ -614,7 +748,7 @@ fn c12_meta(ctx: &Ctx) -> Meta {
     let np = enum_parts(n).len();
     Meta {
         level: "exploration",
-        rule: format!("all {} x {} ordered pairs of partitions over a compressed line of {} positions; expected result = the maximal runs of positions with equal (class in p1, class in p2) other than (complement, complement), complement = intersection of the complements with a witness inside it; merge with the empty partition on either side; lists of three partitions in all 6 orders and with an empty partition inserted at every place; run in the release and dev profiles; non-trivial = ordered pairs of two different non-empty partitions", np, np, n),
+        rule: format!("all {} x {} ordered pairs of partitions over a compressed line of {} positions; expected result = the maximal runs of positions with equal (class in p1, class in p2) other than (complement, complement), complement = intersection of the complements with a witness inside it; merge with the empty partition on either side; every ordered pair also as a two-element list through merge_partition_list; lists of three partitions in all 6 orders and with an empty partition inserted at every place; run in the release and dev profiles; non-trivial = ordered pairs of two different non-empty partitions", np, np, n),
         assumptions: vec!["'same class exactly when' is read for interval partitions: a class other than the complement is an interval, so the result must be the coarsest refinement whose classes are intervals (maximal runs), as the statement's third clause says".into()],
         exhaustive: true,
         space: format!("compressed line {:?}", units(n)),
@@ -978,6 +1112,88 @@ fn c15_pair(r: R, s: R) -> Option<String> {
     }
 }
 
+/// Closed-form oracle for large bounds (cross-checked against the brute-force oracle on all small pairs in every run):
+/// the union over y in [c,d] of [y*a, y*b] has no gap iff c == d, or (b infinite: c >= 1 or a <= 1), or c*(b-a) >= a-1.
+fn closed_form_exact(r: R, s: R) -> bool {
+    let (a, c) = (r.0 as u128, s.0 as u128);
+    if s.1 == Some(s.0) {
+        return true;
+    }
+    match r.1 {
+        None => c >= 1 || a <= 1,
+        Some(b) => c * (b as u128 - a) + 1 >= a,
+    }
+}
+
+/// large operands: only the exactness criterion and mul's hull (products that overflow u32 panic as documented and are skipped)
+fn c15_big(r: R, s: R) -> Option<String> {
+    // skip documented overflow panics of mul32
+    let lo = r.0 as u128 * s.0 as u128;
+    let hi = match (r.1, s.1) {
+        (Some(b), Some(d)) => Some(b as u128 * d as u128),
+        _ => None,
+    };
+    let zero = |x: R| x == (0, Some(0));
+    if !zero(r) && !zero(s) && (lo > u32::MAX as u128 || hi.map(|h| h > u32::MAX as u128).unwrap_or(false)) {
+        return None;
+    }
+    // c*(b-a) is computed by the library with mul32 as well
+    if let Some(b) = r.1 {
+        if s.0 as u128 * (b as u128 - r.0 as u128) > u32::MAX as u128 {
+            return None;
+        }
+    }
+    let res = guarded(|| {
+        let (x, y) = (lr(r), lr(s));
+        let m = x.mul(&y);
+        // the hull of the union
+        let (elo, ehi): (u128, Option<u128>) = if zero(r) || zero(s) { (0, Some(0)) } else { (lo, hi) };
+        let mut hull_ok = m.start() as u128 == elo && m.is_finite() == ehi.is_some();
+        if let Some(h) = ehi {
+            hull_ok &= m.contains(h as u32) && (h >= u32::MAX as u128 || !m.contains(h as u32 + 1));
+        }
+        let exp = closed_form_exact(r, s) && hull_ok;
+        let got = x.right_mul_is_exact(&y);
+        if !hull_ok {
+            return Some(format!("{}.mul({}) = {} is not the hull [{}, {:?}] of the products", show_r(r), show_r(s), m, elo, ehi));
+        }
+        (got != exp).then(|| format!("{}.right_mul_is_exact({}) = {}, but the union over y of [y*{}, y*b] {} a gap", show_r(r), show_r(s), got, r.0, if exp { "has no" } else { "has" }))
+    });
+    match res {
+        Ok(m) => m,
+        Err(e) => Some(format!("LoopRange {} {}: {}", show_r(r), show_r(s), e)),
+    }
+}
+
+fn c15_big_ranges() -> (Vec<R>, Vec<R>) {
+    let p31: u32 = 1 << 31;
+    let big: Vec<u32> = vec![100, 65535, 65536, 1_000_000, p31 - 2, p31 - 1, p31, p31 + 1, 3_000_000_000, u32::MAX / 2, u32::MAX - 2, u32::MAX - 1];
+    let mut rs: Vec<R> = vec![];
+    for &a in &big {
+        rs.push((a, None));
+        for w in [0u32, 1, 2, 1000, p31 - 1, p31, p31 + 1] {
+            if let Some(b) = a.checked_add(w) {
+                rs.push((a, Some(b)));
+            }
+        }
+    }
+    for &a in &[0u32, 1, 2, 1000] {
+        for b in [p31 - 1, p31, p31 + 1, 2147484648, 1_500_000_000, u32::MAX - 1] {
+            rs.push((a, Some(b)));
+        }
+    }
+    let mut ss: Vec<R> = vec![];
+    for c in 0..=3u32 {
+        ss.push((c, None));
+        for d in c..=3 {
+            ss.push((c, Some(d)));
+        }
+    }
+    ss.push((1000, Some(1001)));
+    ss.push((65536, None));
+    (rs, ss)
+}
+
 fn c15_ranges(nmax: u32) -> Vec<R> {
     let mut rs = vec![];
     for i in 0..=nmax {
@@ -1019,6 +1235,32 @@ fn c15_run(ctx: &Ctx, batch: usize, nb: usize, rep: &mut Report) {
             if let Some(m) = c15_pair(r, s) {
                 rep.violation("C15", "c15", json!({"kind": "pair", "r": rj(r), "s": rj(s)}), m);
             }
+            // machinery self-check: the closed form used for large operands agrees with the brute-force oracle
+            if c15_pair(r, s).is_none() && closed_form_exact(r, s) != exact {
+                rep.note(format!("CLOSED FORM MISMATCH {} {}", show_r(r), show_r(s)));
+                rep.inc("closed_form_mismatch");
+            }
+        }
+    }
+    // operands near 2^16, 2^31 and 2^32
+    let (brs, bss) = c15_big_ranges();
+    let mut k = 0usize;
+    for &r in &brs {
+        for &s in &bss {
+            k += 1;
+            if k % nb != batch {
+                continue;
+            }
+            rep.inc("evaluations");
+            rep.inc("big_pairs");
+            if let Some(m) = c15_big(r, s) {
+                rep.violation("C15", "c15", json!({"kind": "big", "r": rj(r), "s": rj(s)}), m);
+            }
+            // and with the roles exchanged (small first)
+            rep.inc("evaluations");
+            if let Some(m) = c15_big(s, r) {
+                rep.violation("C15", "c15", json!({"kind": "big", "r": rj(s), "s": rj(r)}), m);
+            }
         }
     }
     if batch == 0 {
@@ -1032,6 +1274,7 @@ fn c15_replay(_ctx: &Ctx, c: &Value, rep: &mut Report) {
     rep.inc("evaluations");
     let m = match c["kind"].as_str().unwrap_or("") {
         "single" => c15_single(pr(&c["r"]), c["n"].as_u64().unwrap_or(8) as u32),
+        "big" => c15_big(pr(&c["r"]), pr(&c["s"])),
         _ => c15_pair(pr(&c["r"]), pr(&c["s"])),
     };
     if let Some(m) = m {
@@ -1044,7 +1287,7 @@ fn c15_meta(ctx: &Ctx) -> Meta {
     let k = c15_ranges(n).len();
     Meta {
         level: "exploration",
-        rule: format!("all {} ranges [i,j] and [i,inf) with i <= j <= {}, all {} ordered pairs and all scale factors 0..{}: contains, shift, scale, add_point, add, includes, mul and right_mul_is_exact against explicit finite sets of naturals truncated at {} and compared on [0,{}]; run in the release and dev profiles; non-trivial = ordered pairs for which the exactness criterion must answer false", k, n, k * k, n, H, H / 3),
+        rule: format!("all {} ranges [i,j] and [i,inf) with i <= j <= {}, all {} ordered pairs and all scale factors 0..{}: contains, shift, scale, add_point, add, includes, mul and right_mul_is_exact against explicit finite sets of naturals truncated at {} and compared on [0,{}]; plus operands near 2^16, 2^31 and 2^32 (exactness and mul's hull against a closed form in u128 arithmetic that is cross-checked against the brute-force oracle on every small pair); run in the release and dev profiles; non-trivial = ordered pairs for which the exactness criterion must answer false", k, n, k * k, n, H, H / 3),
         assumptions: vec![format!("truncation is sound for these bounds: with bounds <= {} every gap between consecutive multiples y*[a,b] appears below {}", n, H / 3)],
         exhaustive: true,
         space: format!("bounds 0..={}", n),
